@@ -206,9 +206,11 @@ def _lev(a, b):
 
 @obligation(params=dict(a=Text(3), b=Text(3)), tags={2: 'equal strings', 3: 'different strings'}, timeout=600,
             pre=['a_n <= b_n or a_n > b_n'],
-            thorough=dict(params=dict(a=Text(4), b=Text(4)), timeout=3000),
+            thorough=dict(params=dict(a=Text(4), b=Text(4), la=Int(0, 4), lb=Int(0, 4)), timeout=3000, split=('la', 'lb')),
             note='levenshtein_distance equals the textbook edit distance (symbolic strings, <= 3 characters each)')
-def G2_levenshtein(a, b):
+def G2_levenshtein(a, b, la=None, lb=None):
+    if la is not None and (len(a) != la or len(b) != lb):
+        return SKIP                        # thorough tier: one partition per pair of lengths
     s = PX.pxssh()
     got = s.levenshtein_distance(a, b)
     want = _lev(a, b)
